@@ -25,6 +25,8 @@
 #include <signal.h>
 #include <sys/wait.h>
 #include <sys/mman.h>
+#include <poll.h>
+#include <errno.h>
 
 typedef unsigned __int128 u128;
 typedef uint64_t u64;
@@ -106,6 +108,13 @@ struct Reporter
     {
         std::lock_guard<std::mutex> g(mu);
         printf("INFO %s %s\n", k.c_str(), t.c_str());
+    }
+    void reset() // in a forked child: forget what the parent had accumulated
+    {
+        stats.clear();
+        viol_per_sig.clear();
+        samples_per_kind.clear();
+        nviol = 0;
     }
     void flush()
     {
@@ -350,6 +359,7 @@ inline void fork_pool(long n, int jobs, const std::function<void(long)> &body)
         {
             close(p[0]);
             dup2(p[1], 1);
+            rep().reset();
             for (long i = j; i < n; i += jobs) body(i);
             rep().flush();
             fflush(stdout);
@@ -359,23 +369,130 @@ inline void fork_pool(long n, int jobs, const std::function<void(long)> &body)
         pids.push_back(pid);
         fds.push_back(p[0]);
     }
-    // relay
-    for (size_t j = 0; j < fds.size(); j++)
+    // relay: drain all worker pipes concurrently, emit each worker's output when it ends
     {
-        std::string acc;
+        std::vector<std::string> acc(fds.size());
+        std::vector<bool> open_(fds.size(), true);
+        size_t nopen = fds.size();
+        std::vector<struct pollfd> pf(fds.size());
         char buf[65536];
-        ssize_t k;
-        while ((k = read(fds[j], buf, sizeof buf)) > 0) acc.append(buf, k);
-        close(fds[j]);
-        fwrite(acc.data(), 1, acc.size(), stdout);
-        int st;
-        waitpid(pids[j], &st, 0);
-        if (!WIFEXITED(st) || WEXITSTATUS(st) != 0)
+        while (nopen)
         {
-            printf("INFO worker_abnormal %d status=%d\n", (int)j, st);
-            rep().stat("framework_worker_abnormal");
+            for (size_t j = 0; j < fds.size(); j++) { pf[j].fd = open_[j] ? fds[j] : -1; pf[j].events = POLLIN; pf[j].revents = 0; }
+            if (poll(pf.data(), pf.size(), -1) < 0) { if (errno == EINTR) continue; perror("poll"); exit(3); }
+            for (size_t j = 0; j < fds.size(); j++)
+            {
+                if (!open_[j] || !(pf[j].revents & (POLLIN | POLLHUP | POLLERR))) continue;
+                ssize_t k = read(fds[j], buf, sizeof buf);
+                if (k > 0) acc[j].append(buf, k);
+                else
+                {
+                    close(fds[j]);
+                    open_[j] = false;
+                    nopen--;
+                    fwrite(acc[j].data(), 1, acc[j].size(), stdout);
+                    acc[j].clear();
+                    int st;
+                    waitpid(pids[j], &st, 0);
+                    if (!WIFEXITED(st) || WEXITSTATUS(st) != 0)
+                    {
+                        printf("INFO worker_abnormal %d status=%d\n", (int)j, st);
+                        rep().stat("framework_worker_abnormal");
+                    }
+                }
+            }
         }
     }
     fflush(stdout);
 }
+// Crash-isolating parallel enumeration for code under test that may abort/segfault and
+// that uses OpenMP itself.  The calling process and the workers never execute library code:
+//   parent -> forks `jobs` workers -> each worker forks one grandchild per chunk of cases.
+// A grandchild that ends abnormally has its output discarded and its chunk re-run one case
+// per grandchild; a case that still ends abnormally is handed to on_crash (which normally
+// reports a VIOL with the exact case).  body(i) prints protocol lines via rep()/printf.
+inline void isolated_for(long n, int jobs, long chunk, const std::function<void(long)> &body,
+                         const std::function<void(long, const ChildResult &)> &on_crash, int timeout_s = 120)
+{
+    if (chunk < 1) chunk = 1;
+    long nchunks = (n + chunk - 1) / chunk;
+    auto run_range = [&](long lo, long hi) -> ChildResult {
+        return run_child([&](FILE *f) {
+            int fd = fileno(f);
+            fflush(stdout);
+            dup2(fd, 1);
+            rep().reset();
+            for (long i = lo; i < hi; i++) body(i);
+            rep().flush();
+            fflush(stdout);
+        }, timeout_s);
+    };
+    fork_pool(nchunks, jobs, [&](long c) {
+        long lo = c * chunk, hi = std::min(n, lo + chunk);
+        ChildResult r = run_range(lo, hi);
+        if (r.kind == 0) { fwrite(r.out.data(), 1, r.out.size(), stdout); return; }
+        if (hi - lo == 1) { on_crash(lo, r); return; }
+        for (long i = lo; i < hi; i++)
+        {
+            ChildResult r1 = run_range(i, i + 1);
+            if (r1.kind == 0) fwrite(r1.out.data(), 1, r1.out.size(), stdout);
+            else on_crash(i, r1);
+        }
+    });
+}
+inline std::string crash_sig(const ChildResult &r)
+{
+    if (r.kind == 1)
+    {
+        if (r.code == SIGALRM) return "timeout";
+        if (r.code == SIGABRT) return "abort";
+        if (r.code == SIGSEGV) return "segv";
+        if (r.code == SIGBUS) return "sigbus";
+        if (r.code == SIGFPE) return "sigfpe";
+        return "signal" + dec(r.code);
+    }
+    return "exit" + dec(r.code);
+}
+// last non-empty line of stderr, sanitised (assert text etc.)
+inline std::string err_tail(const ChildResult &r)
+{
+    std::string e = r.err;
+    while (!e.empty() && (e.back() == '\n' || e.back() == ' ')) e.pop_back();
+    size_t i = e.rfind('\n');
+    std::string t = i == std::string::npos ? e : e.substr(i + 1);
+    for (char &c : t) if (c == '\t') c = ' ';
+    if (t.size() > 300) t.resize(300);
+    return t;
+}
+
+// Guard-page arena: `n` elements of `T` placed so that the element AFTER the last one
+// (end-aligned) or BEFORE the first one (start-aligned) lies in a PROT_NONE page.
+template <class T> struct GuardArena
+{
+    char *base = nullptr;
+    size_t maplen = 0;
+    T *p = nullptr;
+    size_t n = 0;
+    GuardArena(size_t n_, bool end_aligned, size_t align = sizeof(T)) : n(n_)
+    {
+        const size_t PG = 4096;
+        size_t bytes = n * sizeof(T);
+        size_t data_pages = (bytes + PG - 1) / PG + 1;
+        maplen = (data_pages + 2) * PG;
+        base = (char *)mmap(nullptr, maplen, PROT_READ | PROT_WRITE, MAP_PRIVATE | MAP_ANONYMOUS, -1, 0);
+        if (base == MAP_FAILED) { perror("mmap"); exit(3); }
+        memset(base, 0xA5, maplen);
+        mprotect(base, PG, PROT_NONE);
+        mprotect(base + maplen - PG, PG, PROT_NONE);
+        if (end_aligned)
+        {
+            size_t off = maplen - PG - bytes;
+            off -= off % align;
+            p = (T *)(base + off);
+        }
+        else p = (T *)(base + PG);
+    }
+    ~GuardArena() { if (base) munmap(base, maplen); }
+    GuardArena(const GuardArena &) = delete;
+};
 } // namespace vc
